@@ -216,6 +216,7 @@ type Layout struct {
 	BlockInAnn  bool   `json:"block_in_ann"` // a ### block comment between the rules of an annotation and what follows them
 	EmptyCmt    bool   `json:"empty_cmt"`    // a ### block comment inside empty containers: `[### c ###]`, with EmptyPad `[ ### c ### ]`
 	EmptyAnn    int    `json:"empty_ann"`    // elements without rules and note get an empty annotation at the line end: 1 `//`, 2 `// ` + blanks, 3 `/**/`, 4 `/* */`
+	ColonTab    bool   `json:"colon_tab"`    // a TAB between a rule name and its colon, a TAB behind the colon
 	NoteBelow   bool   `json:"note_below"`   // an annotation that is only a note stands on a line of its own below its one-line element (last member / item, or the root)
 }
 
@@ -251,6 +252,7 @@ func RandLayout(rng *rand.Rand) Layout {
 		NoteBelow:   rng.IntN(6) == 0,
 		EmptyCmt:    rng.IntN(6) == 0,
 		EmptyAnn:    []int{0, 0, 0, 0, 0, 0, 1, 2, 3, 4}[rng.IntN(10)],
+		ColonTab:    rng.IntN(8) == 0,
 	}
 	return l
 }
@@ -377,6 +379,10 @@ func (p *printer) ruleObject(rules []Rule, level int, spread bool) string {
 	if p.l.Pad == 2 {
 		in = " "
 	}
+	colon := in + ":" + sp
+	if p.l.ColonTab {
+		colon = "\t:\t"
+	}
 	var sb strings.Builder
 	sb.WriteString("{")
 	if spread && len(rules) > 0 {
@@ -387,7 +393,7 @@ func (p *printer) ruleObject(rules []Rule, level int, spread bool) string {
 					sb.WriteString(p.l.Indent)
 				}
 			}
-			sb.WriteString(p.ruleName(r.Name) + in + ":" + sp + p.rv(r.Val, level+1, false))
+			sb.WriteString(p.ruleName(r.Name) + colon + p.rv(r.Val, level+1, false))
 			if i+1 < len(rules) {
 				sb.WriteString(",")
 			}
@@ -406,7 +412,7 @@ func (p *printer) ruleObject(rules []Rule, level int, spread bool) string {
 		if i > 0 {
 			sb.WriteString(in + "," + sp)
 		}
-		sb.WriteString(p.ruleName(r.Name) + in + ":" + sp + p.rv(r.Val, level, false))
+		sb.WriteString(p.ruleName(r.Name) + colon + p.rv(r.Val, level, false))
 	}
 	sb.WriteString(in + "}")
 	return sb.String()
